@@ -33,17 +33,19 @@ def run_program(prog, flavours=("sync",), model=None, link_to=False, compare_tre
             if op["op"] == "damage":
                 O.apply_damage(op, cache, ext)
                 first, extra = m.cmd(O.model_line(op))
-                steps.append((op, ("ok", "unit"), ("ok", "unit"), None))
+                steps.append((op, ("ok", "unit"), ("ok", "unit"), None, None))
                 continue
             if op["op"] == "cmptree":
                 r = compare_trees(m, cache, ext, times)
-                steps.append((op, None, None, r))
+                steps.append((op, None, None, r, None))
                 if r is not None:
                     ok = False; tree_reason = r
                     if stop_on_first: break
                 continue
             ip = impls[op.get("bin", 0)]
+            pre = _observe_pre(op, cache, ext)
             r = ip.op({k: v for k, v in op.items() if k != "bin"})
+            obs = _observe_post(op, r, pre, cache, ext)
             if "t0" in r:
                 times[idx] = (r["t0"], r["t1"])
             ci = O.canon_impl(op, r)
@@ -55,7 +57,7 @@ def run_program(prog, flavours=("sync",), model=None, link_to=False, compare_tre
                 reason = "unsupported-op-in-program"
             else:
                 reason = O.results_equal(cm, ci, times)
-            steps.append((op, cm, ci + ((r.get("msg"),) if ci[0] in ("panic", "err") else ()), reason))
+            steps.append((op, cm, ci + ((r.get("msg"),) if ci[0] in ("panic", "err") else ()), reason, obs))
             if reason is not None:
                 ok = False
                 if stop_on_first: break
@@ -76,3 +78,54 @@ def run_program(prog, flavours=("sync",), model=None, link_to=False, compare_tre
 def compare_trees(m, cache, ext, times):
     first, extra = m.cmd("dump")
     return O.trees_equal(O.parse_model_dump(extra), O.dump_real(cache, ext), times)
+
+# ---- observations for the direct oracles (C01 / C18): what the implementation left at an extraction destination, and
+# whether delivered bytes carry the digest of the address the index / the caller names.  Independent of the Coq model.
+def _addr_of(op, cache):
+    import base64
+    from . import ref, oracle
+    try:
+        if "sri" in op and op.get("by", "hash") == "hash" or op["op"] in ("read_hash", "ropen_hash"):
+            hs = oracle.parse_sri(op["sri"])
+        else:
+            key = bytes.fromhex(op["key"])
+            with open(os.path.join(cache, *ref.bucket_rel(key)), "rb") as f:
+                obj = ref.naive_find(f.read(), key.decode())
+            hs = oracle.parse_sri(obj["integrity"]) if obj else None
+        return hs[0] if hs else None
+    except Exception:
+        return None
+
+def _digest_matches(addr, data):
+    import base64
+    from . import hashes
+    return addr is not None and addr[1] == base64.b64encode(hashes.digest(addr[0], data)).decode()
+
+def _observe_pre(op, cache, ext):
+    if op["op"] in ("copy", "hard_link", "reflink"):
+        p = os.path.join(ext, op["to"])
+        pre = {"dest_existed": os.path.lexists(p)}
+        if pre["dest_existed"] and os.path.isfile(p):
+            with open(p, "rb") as f: pre["dest_sha"] = __import__("hashlib").sha256(f.read()).hexdigest()
+        return pre
+    return None
+
+def _observe_post(op, r, pre, cache, ext):
+    o = op["op"]
+    try:
+        if o in ("copy", "hard_link", "reflink"):
+            p = os.path.join(ext, op["to"])
+            obs = dict(pre, dest_exists=os.path.lexists(p), checked=op.get("checked", True))
+            if obs["dest_exists"] and os.path.isfile(p):
+                with open(p, "rb") as f: data = f.read()
+                obs["dest_sha"] = __import__("hashlib").sha256(data).hexdigest()
+                obs["dest_changed"] = obs["dest_sha"] != pre.get("dest_sha")
+                if r.get("r") == "ok":
+                    obs["dest_digest_ok"] = _digest_matches(_addr_of(op, cache), data)
+                    if o == "copy": obs["count_ok"] = (r.get("v") == len(data))
+            return obs
+        if o in ("read", "read_hash") and r.get("r") == "ok":
+            return {"digest_ok": _digest_matches(_addr_of(op, cache), bytes.fromhex(r["v"]))}
+    except Exception as e:
+        return {"observe_error": repr(e)}
+    return None
